@@ -442,3 +442,7 @@ func compareFiles(res *core.Result, fam *family, srcRel, dstRel string, src, dst
 		}
 	}
 }
+
+func parserParse(name string, b []byte) (*ast.File, error) {
+	return parser.ParseFile(core.Fset, name, b, parser.SkipObjectResolution)
+}
